@@ -30,6 +30,10 @@ func SharedKey(et int32, idx int) []byte {
 	return kcrypto.RandomToKey(et, vh.NewRand("shared-key", kcrypto.KeyLen(et), idx).Bytes(kcrypto.SeedLen(et)))
 }
 
+// Every check runs with a local time zone that is not UTC: a time.Now() that lost its .UTC() on the way into a message then shows
+// as a GeneralizedTime with an offset (or as a wrong instant), instead of going unnoticed on a UTC host.
+func init() { time.Local = time.FixedZone("VERIF+0530", 5*3600+1800) }
+
 // Epoch is the start of the virtual clock inside a synctest bubble.
 var Epoch = time.Date(2000, 1, 1, 0, 0, 0, 0, time.UTC)
 
